@@ -12,6 +12,7 @@ import (
 	"math/rand"
 	"os"
 	"path/filepath"
+	"regexp"
 	"sort"
 	"strings"
 	"time"
@@ -156,7 +157,7 @@ func lineModel(e *Env, r *Report, prop string) {
 			r.Fatal = "bad BEHL: " + err.Error()
 			return
 		}
-		if (prop == "C14") != (b.Mode == "raw") {
+		if prop == "C15" && b.Mode == "raw" {
 			continue
 		}
 		behs = append(behs, b)
@@ -164,6 +165,24 @@ func lineModel(e *Env, r *Report, prop string) {
 	if len(behs) == 0 {
 		r.Fatal = "no line behaviours emitted"
 		return
+	}
+	if prop == "C14" {
+		// malformed tails (all of them) and a seeded sample of well-formed records: one event out per
+		// record in, carrying nothing that is not in the input
+		raw, valid := []lineBeh{}, []lineBeh{}
+		for _, b := range behs {
+			if b.Mode == "raw" {
+				raw = append(raw, b)
+			} else {
+				valid = append(valid, b)
+			}
+		}
+		rand.New(rand.NewSource(e.Seed+7)).Shuffle(len(valid), func(i, j int) { valid[i], valid[j] = valid[j], valid[i] })
+		nv := 1200
+		if e.Tier == "thorough" {
+			nv = 12000
+		}
+		behs = append(raw, valid[:min(nv, len(valid))]...)
 	}
 	r.Coverage["line_behaviours"] = len(behs)
 	if sample > 0 && len(behs) > sample {
@@ -253,6 +272,9 @@ func lineModel(e *Env, r *Report, prop string) {
 		}
 	}
 	r.Coverage["line_results_depending_on_history"] = nHist
+	if prop == "C15" {
+		recs = append(recs, cliEvents(e, r, behs)...)
+	}
 	r.Coverage["line_runs"] = len(recs)
 	for k, v := range routes {
 		r.Coverage["line_route_"+k] = v
@@ -298,4 +320,102 @@ func lineModel(e *Env, r *Report, prop string) {
 		}
 		r.Violate(prop+"|line|"+x.ID+"|"+shortWhat(x.What), x.What, map[string]any{"id": x.ID, "detail": x.D})
 	}
+}
+
+var reANSI = regexp.MustCompile("\x1b\\[[0-9;]*m")
+
+// cliEvents sends a sample of the well-formed records through the real aa-log binary (default display).
+func cliEvents(e *Env, r *Report, behs []lineBeh) []any {
+	if err := e.BuildTools(); err != nil {
+		r.Inconcl = append(r.Inconcl, "cli phase: "+err.Error())
+		return nil
+	}
+	type rec struct {
+		K string   `json:"k"`
+		V []string `json:"v"`
+	}
+	type item struct {
+		id   string
+		vals map[string]string
+	}
+	items := []item{}
+	var log strings.Builder
+	seen := map[string]bool{}
+	for i, b := range behs {
+		if b.Mode == "raw" || len(items) >= 400 {
+			continue
+		}
+		if i%3 != 0 && len(behs) > 1500 {
+			continue
+		}
+		line := concLine(b.Line, i)
+		if strings.ContainsAny(line, "\n") || seen[line] {
+			continue
+		}
+		vals := map[string]string{}
+		ok := true
+		for _, raw := range b.Rec {
+			var f rec
+			if json.Unmarshal(raw, &f) != nil {
+				ok = false
+				break
+			}
+			key := lineChars[f.K]
+			if key == "" || f.K == "pid" || f.K == "fsuid" {
+				continue
+			}
+			v := concLine(f.V, i)
+			if strings.ContainsAny(v, "\n\t\x12") || v == "" {
+				ok = false // values the display cannot show on one line / does not print
+				break
+			}
+			vals[key] = v
+		}
+		if !ok {
+			continue
+		}
+		seen[line] = true
+		fmt.Fprintf(&log, "type=AVC msg=audit(18000%05d.%03d:%d): apparmor=\"DENIED\" %s\n", len(items), len(items)%1000, len(items), line)
+		items = append(items, item{b.Mode + "|" + strings.Join(b.Line, ""), vals})
+	}
+	if len(items) == 0 {
+		return nil
+	}
+	p := filepath.Join(e.Scratch, "cli-lines.log")
+	if err := os.WriteFile(p, []byte(log.String()), 0o644); err != nil {
+		return nil
+	}
+	run := runAaLog(e, "-f", p)
+	lines := []string{}
+	for _, l := range strings.Split(run.Stdout, "\n") {
+		if strings.TrimSpace(l) != "" {
+			lines = append(lines, reANSI.ReplaceAllString(l, ""))
+		}
+	}
+	res := []any{}
+	if run.Exit != 0 || len(lines) != len(items) {
+		res = append(res, map[string]any{"ev": "cli", "p": "C15", "id": "cli|all", "missing": []string{fmt.Sprintf("aa-log exit %d, %d lines for %d records", run.Exit, len(lines), len(items))}, "shown": ""})
+		return res
+	}
+	for i, it := range items {
+		missing := []string{}
+		keys := []string{}
+		for k := range it.vals {
+			keys = append(keys, k)
+		}
+		sort.Strings(keys)
+		for _, k := range keys {
+			v := it.vals[k]
+			shown := v
+			if strings.Contains(v, " ") {
+				shown = `"` + v + `"`
+			}
+			if !strings.Contains(lines[i], shown) {
+				missing = append(missing, k+"="+v)
+			}
+		}
+		res = append(res, map[string]any{"ev": "cli", "p": "C15", "id": "cli|" + it.id, "missing": missing, "shown": lines[i]})
+	}
+	r.Coverage["cli_records_displayed"] = len(items)
+	return res
 }
